@@ -121,7 +121,11 @@ func (r *udpRun) checkMetrics(assocs []*assoc, outSocks []*simnet.UDPConn, owner
 		} else {
 			for j, e := range a.fromClient {
 				g := got[j]
-				if !strings.HasPrefix(g.Status, e.Status) {
+				named := false
+				for _, alt := range strings.Split(e.Status, "|") {
+					named = named || strings.HasPrefix(g.Status, alt)
+				}
+				if !named {
 					rc.Failf("from-client-status:"+e.Status+"->"+g.Status, "association of %s, datagram #%d: reported status %s, outcome was %s", rec.Client, j, g.Status, e.Status)
 				}
 				if g.A != e.A {
